@@ -75,6 +75,9 @@ def variant_args(name, variant, k, axis=None):
             args += ["-q", "0.5"]
         if axis in ("obs", "fcst") and "-r" not in args and name not in NO_THRESHOLDS:
             args += ["-r", "0"]
+    if variant.startswith("one-b:"):
+        # exactly one threshold with each bin type (a within type has no event to form from one threshold: error message, not a crash)
+        return variant_args(name, "one", k, axis) + ["-b", variant.split(":", 1)[1]]
     if variant == "explicit-b":
         args += ["-b", BINS[k % len(BINS)]]
     if variant == "agg":
@@ -111,6 +114,15 @@ def items(tier):
         for rep, (shape, first_only) in enumerate([("full2", False), ("full2", True), ("prob2", True), ("prob2", False), ("ens1", False), ("det1", False)]):
             out.append({"shape": shape, "metric": name, "axis": None, "type": "plot", "variant": "one",
                         "k": di + rep, "kind": "text", "first_only": first_only})
+    # every diagram and every metric with exactly one threshold under each of the eight bin types
+    for di, name in enumerate(DIAGRAMS):
+        for bi, b in enumerate(BINS):
+            out.append({"shape": ["full2", "prob2", "ens1"][(di + bi) % 3], "metric": name, "axis": None, "type": "plot", "variant": "one-b:" + b,
+                        "k": di + bi, "kind": "text"})
+    for mi, name in enumerate(mrun.ALL):
+        for bi, b in enumerate(BINS):
+            out.append({"shape": ["full2", "prob2", "full3"][(mi + bi) % 3], "metric": name, "axis": [None, "threshold", "leadtime"][(mi + bi) % 3],
+                        "type": "csv", "variant": "one-b:" + b, "k": mi + bi, "kind": "text"})
     # every diagram on every -x value (drawn), every metric on every -x value (csv), on two shapes whose dimensions have different
     # lengths in both directions (more lead times than times and the converse), so that an index meant for one dimension cannot
     # pass for another
